@@ -18,7 +18,7 @@ OTHER = {"C06-D": "C11",     # template field lost over dump / reload: C11's sta
          "C03-E": "C11",     # the same for IPFIX
          "C07-F": "C12"}     # the sFlow worker queues its encode buffer without a copy: C12 / C13 (what is published)
 # judged outside the properties (see DESIGN.md section 9): not expected to be detected
-OUTSIDE = {"C17-E", "C18-F"}
+OUTSIDE = {"C17-E"}
 
 
 def one(name):
@@ -59,8 +59,8 @@ def main():
             rows.append("%s\t%s\texit=%d\t%s" % (name, prop, rc, first))
             print(rows[-1], flush=True)
     if not sys.argv[1:]:
-        with open(os.path.join(V, "seeded", "REGRESSION.txt"), "w") as fh:
-            fh.write("# harness/seedregress.py: every seeded change against the quick check of its property (exit 1 = detected)\n")
+        with open(os.path.join(V, "seeded", os.environ.get("SEEDREG_OUT", "REGRESSION.txt")), "w") as fh:
+            fh.write("# harness/seedregress.py (VERIF_SEED=%s): every seeded change against the quick check of its property (exit 1 = detected)\n" % os.environ.get("VERIF_SEED", "1"))
             fh.write("\n".join(rows) + "\n")
     print("detected %d / %d (not applicable any more: %d)" % (sum("exit=1\t" in r for r in rows), len(rows), sum("exit=-1" in r for r in rows)))
 
